@@ -502,5 +502,87 @@ Proof.
   destruct R as (e' & rd' & E1 & E2 & E3 & E4 & _). rewrite E1. unfold obs_g, obs_d. rewrite E2, E3, E4. reflexivity.
 Qed.
 
+(** * encoder.go: write, u8, u64, bytes, str over an abstract writer *)
+Lemma le64_go_len v : go_len (le64 v) = 8.
+Proof. unfold go_len. now rewrite le64_length. Qed.
+
+(** * The encoder over a writer that takes everything *)
+Definition wr_ok (out : list N) : go_writer := mkWriter out [].
+
+Lemma enc_write_ok : forall out n bs, 0 <= n -> n + go_len bs < two63z ->
+  gen_sniproxy_encoder_write (wr_ok out) n None bs = GoOk (n + go_len bs, None, wr_ok (out ++ bs)).
+Proof.
+  intros out n bs Hn Hs. unfold gen_sniproxy_encoder_write, gen_sniproxy_encoder_hasErr, wr_write, wr_ok.
+  cbn [go_isnil negb wr_script wr_out]. pose proof (go_len_nonneg bs).
+  rewrite (wrap_i64_small (go_len bs)), wrap_i64_small by (wraps; lia). reflexivity.
+Qed.
+
+Lemma enc_u64_ok : forall out n v, 0 <= n -> n + 8 < two63z -> (v < two64)%N ->
+  gen_sniproxy_encoder_u64 (wr_ok out) n None (Z.of_N v) = GoOk (n + 8, None, wr_ok (out ++ enc_value KU64 (VU64 v))).
+Proof.
+  intros out n v Hn Hs Hv. unfold gen_sniproxy_encoder_u64, gen_sniproxy_encoder_hasErr. cbn [go_isnil negb].
+  change (go_make_bytes 8) with (repeat 0%N 8). change (8 <=? go_len (repeat 0%N 8)) with true. cbv iota.
+  unfold binary_LE_PutUint64. change (8 <=? go_len (repeat 0%N 8)) with true. cbv iota.
+  change (skipn 8 (repeat 0%N 8)) with (@nil N). rewrite app_nil_r.
+  rewrite go_slice_ok_full, go_slice_full.
+  rewrite enc_write_ok by (rewrite ?le64_go_len; lia). cbn [go_bind]. rewrite le64_go_len.
+  rewrite wrap_u64_small by (wraps; unfold two64 in *; lia). rewrite N2Z.id. reflexivity.
+Qed.
+
+Lemma enc_u8_ok : forall out n v, 0 <= n -> n + 1 < two63z ->
+  gen_sniproxy_encoder_u8 (wr_ok out) n None (Z.of_N v) = GoOk (n + 1, None, wr_ok (out ++ [v])).
+Proof.
+  intros out n v Hn Hs. unfold gen_sniproxy_encoder_u8, gen_sniproxy_encoder_hasErr. cbn [go_isnil negb].
+  rewrite enc_write_ok by (cbn; lia). cbn [go_bind]. rewrite N2Z.id. reflexivity.
+Qed.
+
+Lemma enc_bytes_ok : forall out n bs, 0 <= n -> n + 8 + go_len bs < two63z ->
+  gen_sniproxy_encoder_bytes (wr_ok out) n None bs = GoOk (n + 8 + go_len bs, None, wr_ok (out ++ enc_bytes bs)).
+Proof.
+  intros out n bs Hn Hs. unfold gen_sniproxy_encoder_bytes, enc_bytes. pose proof (go_len_nonneg bs).
+  rewrite wrap_u64_small by (wraps; lia).
+  replace (go_len bs) with (Z.of_N (lenN bs)) at 1 by (unfold lenN, go_len; lia).
+  rewrite enc_u64_ok by (unfold lenN, two64, go_len in *; wraps; lia). cbn [go_bind enc_value].
+  rewrite enc_write_ok by lia. cbn [go_bind]. rewrite <- app_assoc. reflexivity.
+Qed.
+
+Lemma enc_str_ok : forall out n s, 0 <= n -> n + 8 + go_len s < two63z ->
+  gen_sniproxy_encoder_str (wr_ok out) n None s = GoOk (n + 8 + go_len s, None, wr_ok (out ++ enc_value KStr (VBytes s))).
+Proof.
+  intros out n s Hn Hs. unfold gen_sniproxy_encoder_str. cbv zeta. rewrite enc_bytes_ok by assumption. reflexivity.
+Qed.
+
+(** The error is sticky: once set, nothing more reaches the writer. *)
+Lemma enc_sticky : forall w n e (v : Z) (bs : list N), e <> None ->
+  gen_sniproxy_encoder_write w n e bs = GoOk (n, e, w) /\
+  gen_sniproxy_encoder_u64 w n e v = GoOk (n, e, w) /\
+  gen_sniproxy_encoder_u8 w n e v = GoOk (n, e, w) /\
+  gen_sniproxy_encoder_bytes w n e bs = GoOk (n, e, w) /\
+  gen_sniproxy_encoder_str w n e bs = GoOk (n, e, w).
+Proof.
+  intros w n e v bs He. destruct e as [x|]; [|congruence].
+  unfold gen_sniproxy_encoder_str, gen_sniproxy_encoder_bytes, gen_sniproxy_encoder_u64, gen_sniproxy_encoder_u8,
+    gen_sniproxy_encoder_write, gen_sniproxy_encoder_hasErr.
+  cbn [go_isnil negb go_bind]. repeat split; reflexivity.
+Qed.
+
+(** A failing Write sets the error and takes nothing. *)
+Lemma enc_write_fails : forall out s err n bs,
+  gen_sniproxy_encoder_write (mkWriter out (Some err :: s)) n None bs = GoOk (n, Some err, mkWriter out s).
+Proof. reflexivity. Qed.
+
+(** What is written decodes back: the decoder over any chunking of what the
+    encoder wrote returns the value. *)
+Lemma enc_dec_u64 : forall v cs flag, (v < two64)%N -> concat cs = enc_value KU64 (VU64 v) ->
+  run_u64 (mkReader cs flag) 0 None = Some (Z.of_N v, ([], 8%N, 0%N)).
+Proof.
+  intros v cs flag Hv Hc.
+  assert (Hb : rd_bytes (mkReader cs flag) = le64 v) by (unfold rd_bytes; cbn [rd_chunks]; exact Hc).
+  rewrite gen_u64_is_model
+    by (rewrite ?Hb, ?le64_go_len; unfold two63z; lia).
+  unfold model_u64, dst. rewrite Hb. cbn [derr_go]. change (Z.to_N 0) with 0%N.
+  pose proof (d_u64_exact v [] 0 0 Hv) as E. rewrite app_nil_r in E. rewrite E. reflexivity.
+Qed.
+
 Lemma cex_wire_none : cex_decoder_u64 = [] /\ cex_decoder_u8 = [] /\ cex_decoder_end = [].
 Proof. vm_compute. repeat split. Qed.
